@@ -511,3 +511,60 @@ Proof.
     + apply Z.eqb_eq in E. subst. exact Hx.
     + intros [I|I]; [apply Z.eqb_neq in E; congruence | exact (IH ND' I)].
 Qed.
+
+(* ------------------------------------------------------------------ Caller (cflib/utils/callbacks.py) *)
+Lemma mem_z_In c l : mem_z c l = true <-> In c l.
+Proof.
+  unfold mem_z. rewrite existsb_exists. split.
+  - intros (x & I & E). apply Z.eqb_eq in E. subst. exact I.
+  - intros I. exists c. split; [exact I | apply Z.eqb_refl].
+Qed.
+
+(* add_callback: never a duplicate; adding a registered callback changes nothing; a new one goes last *)
+Theorem caller_add s c :
+  let s' := fst (run_op s (AddAll c)) in
+  snd (run_op s (AddAll c)) = false /\ cbs s' = cbs s /\ In c (alls s') /\
+  (In c (alls s) -> alls s' = alls s) /\ (~ In c (alls s) -> alls s' = alls s ++ [c]) /\
+  (NoDup (alls s) -> NoDup (alls s')).
+Proof.
+  cbn [run_op fst snd cbs alls]. destruct (mem_z c (alls s)) eqn:M.
+  - apply mem_z_In in M. repeat split; auto. intros N. contradiction.
+  - assert (~ In c (alls s)) as N by (intros I; apply mem_z_In in I; congruence).
+    split; [reflexivity|]. split; [reflexivity|]. split; [apply in_or_app; right; left; reflexivity|].
+    split; [intros I; contradiction|]. split; [reflexivity|].
+    intros ND. clear M. induction (alls s) as [|x l IH]; cbn [app]; [repeat constructor; intros []|].
+    inversion ND as [|? ? Hx ND']; subst. constructor.
+    + intros I. apply in_app_or in I as [I|[<-|[]]]; [exact (Hx I) | apply N; left; reflexivity].
+    + apply IH; [intros I; apply N; right; exact I | exact ND'].
+Qed.
+
+(* remove_callback: ValueError (state unchanged) exactly when absent; otherwise the first occurrence goes *)
+Theorem caller_remove s c :
+  (snd (run_op s (RemAll c)) = true <-> ~ In c (alls s)) /\
+  (~ In c (alls s) -> fst (run_op s (RemAll c)) = s) /\
+  (In c (alls s) -> cbs (fst (run_op s (RemAll c))) = cbs s /\
+                    alls (fst (run_op s (RemAll c))) = remove_first_z c (alls s)).
+Proof.
+  cbn [run_op]. destruct (mem_z c (alls s)) eqn:M; cbn [fst snd cbs alls].
+  - apply mem_z_In in M. split; [split; [discriminate | intros N; contradiction]|].
+    split; [intros N; contradiction | auto].
+  - assert (~ In c (alls s)) as N by (intros I; apply mem_z_In in I; congruence).
+    split; [split; auto|]. split; [reflexivity | intros I; contradiction].
+Qed.
+
+(* call: the callbacks of the copy taken at the start are invoked, once each, in order, whatever they do to
+   the Caller (add, remove themselves or others) during the call; an escaping exception stops the call *)
+Theorem caller_call_over_copy beh n snap s log s1 log1 alive :
+  call_all beh n snap s log = (s1, log1, alive) ->
+  (alive = true -> log1 = all_entries n snap ++ log) /\
+  (alive = false -> exists k, (k < length snap)%nat /\ log1 = all_entries n (firstn (S k) snap) ++ log).
+Proof.
+  intros H. split.
+  - intros ->. eapply call_all_alive. exact H.
+  - intros ->. revert s log s1 log1 H. unfold all_entries.
+    induction snap as [|c snap IH]; intros s log s1 log1 H; cbn [call_all] in H; [discriminate|].
+    destruct (run_script s (beh (EAll c n :: log) c)) as [s' raised]. destruct raised.
+    + injection H as _ <-. exists 0%nat. cbn. split; [lia | reflexivity].
+    + apply IH in H as (k & Lt & ->). exists (S k). split; [cbn [length]; lia|].
+      cbn [firstn map rev]. cbn [firstn] in *. rewrite <- !app_assoc. reflexivity.
+Qed.
